@@ -260,6 +260,59 @@ def same_name_scenario(ctx, home):
     shutil.rmtree(root, ignore_errors=True)
 
 
+def text_scenarios(ctx, home):
+    """scenarios written as YAML text (constructs the model emitter does not spell): comments on array dimensions / enum values / union
+    cases below a documented field or step, and a protocol whose schema is larger than 16 KiB"""
+    manifest = ("namespace: Txt\ncpp:\n  sourcesOutputDir: ../out/cpp\n  generateCMakeLists: false\n  generateHDF5: false\n  overrideArrayHeader: verif/ndarray_shim.h\n"
+                "python:\n  outputDir: ../out/python\nmatlab:\n  outputDir: ../out/matlab\n")
+
+    def model(c):
+        return ("# %(d)s record\nR: !record\n  fields:\n    # %(d)s field img\n    img: !array\n      items: float\n      dimensions:\n        # %(d)s dim x\n        x: 2\n        # %(d)s dim y\n        y: 3\n"
+                "    # %(d)s field e\n    e: E\n    # %(d)s field u\n    u: !union\n      # %(d)s case a\n      a: int\n      # %(d)s case b\n      b: string\n"
+                "# %(d)s enum\nE: !enum\n  values:\n    # %(d)s symbol\n    p: 1\n    # %(d)s symbol 2\n    q: 2\n"
+                "# %(d)s protocol\nP: !protocol\n  sequence:\n    # %(d)s step s\n    s: !array\n      items: int\n      dimensions:\n        # %(d)s dim a\n        a:\n        # %(d)s dim b\n        b:\n"
+                "    # %(d)s step r\n    r: !stream\n      # %(d)s items\n      items: R\n") % {"d": c}
+
+    class _P:          # the little schemas_of needs
+        dir = "pkg"
+    root = os.path.join(ctx.workdir, "cases", "text")
+    got = {}
+    for name, c in (("docs-a", "first wording"), ("docs-b", "second, different wording with \"quotes\""), ("docs-none", None)):
+        text = model(c or "x")
+        if c is None:
+            text = "\n".join(l for l in text.split("\n") if not l.strip().startswith("#"))
+        s1, p1 = schemas_of(os.path.join(root, name), _P, {"pkg/_package.yml": manifest, "pkg/model.yml": text}, home)
+        ctx.ev()
+        ctx.case(("text", name))
+        if s1 is None:
+            ctx.violation("generate-failed", "comment scenario %s rejected: %s" % (name, cli.clean(p1.stderr)[:300]), {"case_dir": root})
+            return
+        got[name] = s1
+    for name in ("docs-b", "docs-none"):
+        for pn in got["docs-a"]:
+            if got[name][pn] != got["docs-a"][pn]:
+                ctx.violation("schema-changed-by-neutral-edit:nested-comments", "changing only documentation comments (on array dimensions, enum values, union cases, stream items "
+                              "below documented fields / steps) changed the schema of %s" % pn, {"case_dir": root, "a": got["docs-a"][pn], "b": got[name][pn]})
+    if any("wording" in v for d in got.values() for o in d.values() for v in o.values()):
+        ctx.violation("schema-contains-comment-text", "documentation text appears in a schema literal", {"case_dir": root})
+    # a schema of > 16 KiB: every target must still embed the same text
+    fields = "".join("    fieldNumber%03d: %s\n" % (i, ["int", "string", "float?", "double*", "R2"][i % 5]) for i in range(520))
+    big = "R2: !record\n  fields:\n    a: int\nBig: !record\n  fields:\n" + fields + "P: !protocol\n  sequence:\n    b: Big\n    s: !stream\n      items: Big\n"
+    s2, p2 = schemas_of(os.path.join(root, "big"), _P, {"pkg/_package.yml": manifest, "pkg/model.yml": big}, home)
+    ctx.ev()
+    ctx.case(("text", "big-schema"))
+    if s2 is None:
+        ctx.violation("generate-failed", "big-schema scenario rejected: %s" % cli.clean(p2.stderr)[:300], {"case_dir": root})
+        return
+    obs = s2.get("P", {})
+    ctx.count("big-schema-bytes", len(obs.get("py", "")))
+    if set(obs) != {"cpp", "py", "matlab"} or len(set(obs.values())) != 1:
+        ctx.violation("schema-differs-between-targets:big", "a %d-byte schema is embedded differently by C++ / Python / MATLAB (or a literal could not be found: %s)" % (len(obs.get("py", "")), sorted(obs)),
+                      {"case_dir": root, "lengths": {k: len(v) for k, v in obs.items()}})
+    else:
+        shutil.rmtree(root, ignore_errors=True)
+
+
 def run(ctx):
     common.build_yardl()
     quick = ctx.tier == "quick"
@@ -382,6 +435,7 @@ def run(ctx):
     for s in [x for x in pmap(one, bases, workers=8) if x][:6]:
         ctx.sample(s)
     same_name_scenario(ctx, home)
+    text_scenarios(ctx, home)
 
 
 def replay(ctx, path):
